@@ -9,7 +9,7 @@ import (
 	"github.com/hack-pad/hackpadfs/mem"
 )
 
-var c03Kinds = []string{"mem", "plain-store", "mount", "sub-of-mem", "sub-of-mount", "nested-mount"}
+var c03Kinds = []string{"mem", "plain-store", "mount", "sub-of-mem", "sub-of-mount", "nested-mount", "sub-dot"}
 
 // c03NewFS builds the file system kind under test. For the mount kinds the universe directory "a"
 // is a mount point backed by a second mem.FS.
@@ -56,6 +56,11 @@ func c03NewFSKind(kind int) hackpadfs.FS {
 		verifAssert(mfs.AddMount("a", inner) == nil, "AddMount a failed")
 		verifAssert(mfs.AddMount("a/a", innermost) == nil, "AddMount a/a failed")
 		return mfs
+	case 6:
+		// the generic view whose base directory is the root itself
+		sub, err := hackpadfs.Sub(newMem(), ".")
+		verifAssert(err == nil, "Sub(., generic) failed")
+		return sub
 	case 3:
 		base := newMem()
 		verifAssert(base.Mkdir("s", 0755) == nil, "Mkdir s")
@@ -196,3 +201,4 @@ func VerifC03Step() {
 	c03Invariant(fs, "after the operation")
 	verifReach("invariant-checked")
 }
+
